@@ -180,8 +180,10 @@ open F3.Instance F3.Bridge
 distinct ids and positive total; Byzantine set `F` with less than a third of the power; `W` the set of validly
 signed votes in existence; every honest committee member `p` ran `Instance.step` from `init` on an arbitrary
 list of operations (`Start`, alarms, deliveries in any order and at any time) in which every delivered
-message is valid (`MsgValid`: its vote and the votes its justification aggregates exist in `W`), reported no
-internal error, and has exactly its own broadcasts as its votes in `W`.  Then any two honest members that
+message of this instance is valid (`MsgValid`: its vote and the votes its justification aggregates exist in
+`W` — what C05's `validMsg` gives, `F3.ValidBridge.validMsg_MsgValid`), reported no error other than refusals
+at the door (`okRun`: other instance / supplemental data / base, or after termination), and has exactly its own
+broadcasts as its votes in `W`.  Then any two honest members that
 report a decision report the same value. -/
 theorem agreement_model {t : Table} {F : Finset Pid} {W : Instance.Votes} (N : Network t F W)
     (p q : Pid) (hp : p ∈ (ids t).toFinset) (hpF : p ∉ F) (hq : q ∈ (ids t).toFinset) (hqF : q ∉ F) (dp dq : Just)
